@@ -76,6 +76,12 @@ def transientCodes : List Nat := [1213, 1205, 2013, 2003, 1040]
 
 section generic
 variable {σ W : Type} (step : σ → W → Except Err σ)
+/- what the transaction body does with an exception raised by statement `w` before it leaves the body: the body may wrap the
+`Transaction.execute_*` call in `try: … except pymysql.err.MySQLError as e:` and raise its own application error (`raise AppError()
+from e`, or without `from`), re-raise, or (no handler) let it pass: `handler w e` is the exception that escapes.  The retry wrapper
+classifies THAT exception object (`exception_log_level_if_retryable(exc)` looks at `exc` itself, never at `exc.__cause__` /
+`exc.__context__`). -/
+variable (handler : W → Err → Err)
 
 /-- server side of one connection -/
 structure Conn (σ : Type) where
@@ -105,17 +111,17 @@ def timed (named : Bool) (cur : σ) (r : Except Err σ) : Except Err σ :=
 def exec (cur : σ) : List (Bool × W) → Option (Nat × Err) → Except Err σ
   | [], some (0, e) => .error e
   | [], _ => .ok cur
-  | (q, _) :: ws, some (0, e) =>
+  | (q, w) :: ws, some (0, e) =>
     match timed q cur (.error e) with
-    | .error e' => .error e'
+    | .error e' => .error (handler w e')
     | .ok cur' => exec cur' ws none
   | (q, w) :: ws, some (i + 1, e) =>
     match timed q cur (step cur w) with
-    | .error e' => .error e'
+    | .error e' => .error (handler w e')
     | .ok cur' => exec cur' ws (some (i, e))
   | (q, w) :: ws, none =>
     match timed q cur (step cur w) with
-    | .error e' => .error e'
+    | .error e' => .error (handler w e')
     | .ok cur' => exec cur' ws none
 
 /-- one `async with db.start() as tx: await fun(tx)`: the new database state and the exception that escaped, if any.
@@ -125,11 +131,11 @@ cancelled while the COMMIT is in flight (fault `(body.length, cancelled)`) sees 
 def attempt (db : σ) (body : List (Bool × W)) (fault : Option (Nat × Err)) : σ × Option Err :=
   let c := Conn.begin db
   if fault = some (body.length, cancelled) then
-    match exec step c.working body none with
+    match exec step handler c.working body none with
     | .ok cur => (Conn.commit { c with working := cur }, some cancelled)
     | .error e => (Conn.rollback c, some e)
   else
-    match exec step c.working body fault with
+    match exec step handler c.working body fault with
     | .ok cur => (Conn.commit { c with working := cur }, none)
     | .error e => (Conn.rollback c, some e)
 
@@ -144,14 +150,14 @@ structure Result (σ : Type) where
 /-- the retry loop, having already made `n` attempts -/
 def runFrom (n : Nat) (db : σ) (body : List (Bool × W)) : List (Option (Nat × Err)) → Result σ
   | [] =>
-    match attempt step db body none with
+    match attempt step handler db body none with
     | (db', err) => ⟨db', err, n + 1⟩
   | f :: fs =>
-    match attempt step db body f with
+    match attempt step handler db body f with
     | (db', none) => ⟨db', none, n + 1⟩
     | (db', some e) => if retryable e then runFrom (n + 1) db' body fs else ⟨db', some e, n + 1⟩
 
-def run (db : σ) (body : List (Bool × W)) (scripts : List (Option (Nat × Err))) : Result σ := runFrom step 0 db body scripts
+def run (db : σ) (body : List (Bool × W)) (scripts : List (Option (Nat × Err))) : Result σ := runFrom step handler 0 db body scripts
 
 end generic
 
@@ -174,6 +180,8 @@ inductive Stmt where
   /-- `execute_many` of the upsert statement with `n` argument rows `(k + j % 2, d)`, `j < n`: aiomysql sends ONE multi-row
   `INSERT … VALUES (…), (…), … ON DUPLICATE KEY UPDATE v = v + VALUES(v)` -/
   | upsertMany (k : Nat) (d : Int) (n : Nat)
+  /-- `try: <stmt> except pymysql.err.MySQLError as e: raise AppError() [from e]` (`wrap = true`) or `… : raise` (`wrap = false`) -/
+  | guarded (wrap : Bool) (s : Stmt)
   deriving DecidableEq, Repr
 
 def get (db : DB) (k : Nat) : Option Int := (db.find? fun p => p.1 = k).map (·.2)
@@ -183,7 +191,21 @@ def put (k : Nat) (v : Int) : DB → DB
   | [] => [(k, v)]
   | (j, w) :: r => if k < j then (k, v) :: (j, w) :: r else if k = j then (k, v) :: r else (j, w) :: put k v r
 
+/-- `isinstance(e, pymysql.err.MySQLError)`: every pymysql class; not a foreign exception, not a `BaseException` -/
+def isMySQLError (e : Err) : Bool :=
+  match e.cls with
+  | .other | .base => false
+  | _ => true
+
+/-- the application error a guarded statement raises instead of the MySQL error it caught (an `Exception` that is not a pymysql one) -/
+def appError : Err := ⟨.other, 0⟩
+
+def handler : Stmt → Err → Err
+  | .guarded true _, e => if isMySQLError e then appError else e
+  | _, e => e
+
 def step (db : DB) : Stmt → Except Err DB
+  | .guarded _ s => step db s
   | .nop => .ok db
   | .upsert k d => .ok (put k ((get db k).getD 0 + d) db)
   | .insert k v => match get db k with
